@@ -80,6 +80,9 @@ class C12(ParserSessionProp):
         lang = world.g['lang']
         plan = spec.get('reader_plan') or []
         vs, log = self.reader_stage(parsed, lang, plan, result['stats'])
+        if not vs and (spec.get('reader_interleave') or {}).get('readers'):
+            vs, log2 = self.interleave_stage(parsed, lang, spec['reader_interleave'], result['stats'])
+            log = log + log2
         for v in vs:
             v['property'] = self.id
             v['op_index'] = len(spec['ops'])
@@ -106,6 +109,12 @@ class C12(ParserSessionProp):
         for step in plan:
             step['guess_extension'] = rng.random() < 0.3
         spec['reader_plan'] = plan
+        # several live readers at once, each consumed under its own language, stepped in a seeded interleaving
+        inter = []
+        if rng.random() < 0.5:
+            for _ in range(rng.randint(2, 3)):
+                inter.append({'format': rng.choice(READABLE.get(lang, ['auto'])), 'lang': rng.choice(['en', 'ja'])})
+        spec['reader_interleave'] = {'readers': inter, 'seed': rng.getrandbits(30)}
         return spec
 
     def reader_stage(self, parsed, lang, plan, stats):
@@ -161,6 +170,66 @@ class C12(ParserSessionProp):
                         return out, log
         finally:
             set_global_language_to(saved_lang)
+            shutil.rmtree(d, ignore_errors=True)
+        return out, log
+
+    def interleave_stage(self, parsed, lang, inter, stats):
+        """S7 as a schedule: k lazy readers are alive at once; before every next() the simulator sets the
+        global language to that reader's own language, so from each reader's point of view the language is
+        constant from creation to exhaustion -- its trees must be labelled by that language's grammar"""
+        import random as _random
+        from depccg.printer import to_string
+        from depccg.lang import set_global_language_to, get_global_language
+        from depccg.tools import reader as R
+        from depccg.grammar import en, ja
+        grammar = {'en': en.apply_binary_rules, 'ja': ja.apply_binary_rules}
+        readers = {'auto': R.read_auto, 'xml': R.read_xml, 'jigg_xml': R.read_jigg_xml, 'ptb': R.read_ptb}
+        suffix = {'auto': '.auto', 'xml': '.xml', 'jigg_xml': '.jigg.xml', 'ptb': '.ptb'}
+        out, log = [], []
+        saved = get_global_language()
+        scratch_root = os.path.join(env.VERIF, '.build', 'scratch')
+        os.makedirs(scratch_root, exist_ok=True)
+        d = tempfile.mkdtemp(dir=scratch_root)
+        rng = _random.Random(inter['seed'])
+        try:
+            live = []
+            for k, rd in enumerate(inter['readers']):
+                fmt = rd['format']
+                set_global_language_to(lang)
+                try:
+                    text = to_string(copy.deepcopy(parsed), fmt)
+                except Exception:
+                    continue
+                path = os.path.join(d, f'r{k}' + suffix[fmt])
+                with open(path, 'w', encoding='utf-8') as f:
+                    f.write(text)
+                set_global_language_to(rd['lang'])
+                live.append({'it': iter(readers[fmt](path)), 'lang': rd['lang'], 'fmt': fmt, 'n': 0})
+            if len({r['lang'] for r in live}) >= 2:
+                bump(stats, 'probe:live_readers_under_different_languages')
+            while live:
+                r = rng.choice(live)
+                set_global_language_to(r['lang'])
+                try:
+                    item = next(r['it'])
+                except StopIteration:
+                    live.remove(r)
+                    continue
+                except Exception as e:  # noqa  (round-trip failures are not this property's subject)
+                    live.remove(r)
+                    log.append((r['fmt'], 'read', type(e).__name__))
+                    continue
+                r['n'] += 1
+                bump(stats, 'interleaved_reader_steps')
+                log.append((r['fmt'], r['lang'], r['n']))
+                v = self.check_read_tree(item.tree, grammar[r['lang']], r['fmt'], r['lang'], stats)
+                if v is not None:
+                    v['message'] = 'with interleaved live readers: ' + v['message']
+                    v['signature'] = dict(v['signature'], interleaved=True)
+                    out.append(v)
+                    return out, log
+        finally:
+            set_global_language_to(saved)
             shutil.rmtree(d, ignore_errors=True)
         return out, log
 
